@@ -2,6 +2,7 @@ INIT Init
 NEXT Next
 CONSTANTS
   Part = "span"
+  Flaws = {}
   Thorough = TRUE
 INVARIANT LawWellFormed
 INVARIANT LawGuard
